@@ -111,6 +111,7 @@ struct lifetime_monitor : public expectation
         }
       }
     }
+    sequences.reset(); // leave the sequences while the lock is held
   }
 
   lifetime_monitor& operator=(lifetime_monitor const&) = delete;
